@@ -89,6 +89,16 @@ func fillState(l, h *[StateSize]uint, seed int64, pattern string) {
 			}
 		case "lowfixed": // low plane constant, high plane varies
 			l[i], h[i] = ^uint(0), uint(r.Uint64())
+		case "zerorate": // the first 243 cells hold the trit 0 in every lane, the rest is arbitrary
+			l[i], h[i] = uint(r.Uint64()), uint(r.Uint64())
+			if i < 243 {
+				l[i], h[i] = ^uint(0), ^uint(0)
+			}
+		case "zerocap": // the other way round
+			l[i], h[i] = ^uint(0), ^uint(0)
+			if i < 243 {
+				l[i], h[i] = uint(r.Uint64()), uint(r.Uint64())
+			}
 		default: // "any": arbitrary words, all four cell values
 			l[i], h[i] = uint(r.Uint64()), uint(r.Uint64())
 		}
@@ -442,7 +452,7 @@ func genTransform(do func(string, M)) {
 	r := vRand(20)
 	n := vEnvInt("VERIF_N", 40)
 	naudit := vEnvInt("VERIF_AUDIT", 12)
-	patterns := []string{"any", "valid", "ones", "zeros", "sparse", "lowfixed"}
+	patterns := []string{"any", "valid", "ones", "zeros", "sparse", "lowfixed", "zerorate", "zerocap"}
 	for k := 0; k < n; k++ {
 		audit := []int{}
 		if k < naudit {
@@ -500,6 +510,16 @@ func genSponge(do func(string, M)) {
 			do("curl.squeeze", M{"id": 9, "nlanes": bs, "nblocks": 1, "bad": "", "audit": au})
 			do("curl.squeeze", M{"id": 8, "nlanes": bs, "nblocks": 2, "bad": "", "audit": []int{}})
 			do("curl.squeeze", M{"id": 9, "nlanes": bs, "nblocks": 1, "bad": "", "audit": []int{}})
+		}
+		// an all-zero block at a later position in EVERY lane of the batch (the rate then holds only zero trits)
+		for _, bs := range []int{1, 3} {
+			lanes := make([][]int, bs)
+			for j := range lanes {
+				lanes[j] = []int{1 + r.Intn(nkeys), 0}
+			}
+			do("curl.new", M{"id": 6})
+			do("curl.absorb", M{"id": 6, "lanes": lanes, "nblocks": 2, "bad": ""})
+			do("curl.squeeze", M{"id": 6, "nlanes": bs, "nblocks": 2, "bad": "", "audit": []int{}})
 		}
 		// a fresh instance that is squeezed before anything was absorbed, reset, and used again
 		do("curl.new", M{"id": 7})
